@@ -411,6 +411,65 @@ def _eval_with_start(v, yy_start):
     return None
 
 
+def _text_value(v, matched, ap, depth=0):
+    """integer value of an expression over the matched text: bytes of yytext, its length, the length of a run of
+    characters from a constant set starting at yytext+k (strspn/strcspn), and arithmetic on these; None otherwise"""
+    if depth > 8:
+        return None
+    if sym.is_const(v):
+        return v[1]
+    k = _yytext_index(v)
+    if k is not None:
+        return _sbyte(matched[k]) if k < len(matched) else 0
+    if v[0] == 'bin' and v[1] in ('sext', 'zext', 'trunc'):
+        return _text_value(v[2], matched, ap, depth + 1)
+    if v[0] == 'ld':
+        # a byte of the text at a computed position: yytext[k + <length measured on the text>]
+        def off(a, d=0):
+            if d > 6:
+                return None
+            if a[0] == 'ld' and a[1] == YYTEXT:
+                return 0
+            if a[0] == 'idx':
+                b0 = off(a[1], d + 1)
+                i0 = _text_value(a[2], matched, ap, depth + 1)
+                return None if b0 is None or i0 is None else b0 + i0
+            return None
+        o = off(v[1])
+        if o is not None and o >= 0:
+            return _sbyte(matched[o]) if o < len(matched) else 0
+        return None
+    if v[0] == 'bin' and len(v) == 4 and v[1] in ('add', 'sub', 'mul'):
+        a, b = _text_value(v[2], matched, ap, depth + 1), _text_value(v[3], matched, ap, depth + 1)
+        if a is None or b is None:
+            return None
+        return {'add': a + b, 'sub': a - b, 'mul': a * b}[v[1]]
+    if v[0] == 'call' and v[1] in ('strspn', 'strcspn', 'strlen'):
+        e = next((x for x in ap.events if x.kind == 'call' and x.res == v), None)
+        if e is None or not e.args:
+            return None
+        a0 = e.args[0]
+        off = None
+        for k_ in range(0, 8):
+            if _yytext_plus(a0, k_):
+                off = k_
+        if off is None:
+            return None
+        tail = bytes(matched[off:])
+        if v[1] == 'strlen':
+            return len(tail.split(b'\0')[0])
+        if len(e.args) < 2 or e.args[1][0] != 'str':
+            return None
+        cs = set(e.args[1][1].encode('latin-1'))
+        n = 0
+        for b_ in tail:
+            if b_ == 0 or ((b_ in cs) != (v[1] == 'strspn')):
+                break
+            n += 1
+        return n
+    return None
+
+
 def consistent_with(ap, matched, model=None, sc=None):
     """False if some assumption of the action path about a byte of the matched text contradicts `matched` (or, when the
     start condition the rule fired in is given, contradicts that: an action shared by several conditions may ask YY_START)"""
@@ -422,6 +481,16 @@ def consistent_with(ap, matched, model=None, sc=None):
             a, b = _eval_with_start(cn[2], 1 + 2 * sc), _eval_with_start(cn[3], 1 + 2 * sc)
             if a is not None and b is not None:
                 r = {'eq': a == b, 'ne': a != b, 'slt': a < b, 'sle': a <= b, 'sgt': a > b, 'sge': a >= b, 'ult': a < b, 'ugt': a > b}.get(cn[1])
+                if r is not None and r != t:
+                    return False
+            continue
+        if cn[0] == 'icmp' and _yytext_index(cn[2]) is None and sym.mentions(cn, lambda x: x[0] == 'call' and x[1] in ('strspn', 'strcspn', 'strlen')) \
+                and not sym.mentions(cn, lambda x: x[0] == 'call' and x[1] not in ('strspn', 'strcspn', 'strlen')):
+            # a test of a length measured on the matched text
+            a_, b_ = _text_value(cn[2], matched, ap), _text_value(cn[3], matched, ap)
+            if a_ is not None and b_ is not None:
+                r = {'eq': a_ == b_, 'ne': a_ != b_, 'slt': a_ < b_, 'sle': a_ <= b_, 'sgt': a_ > b_, 'sge': a_ >= b_,
+                     'ult': a_ < b_, 'ule': a_ <= b_, 'ugt': a_ > b_, 'uge': a_ >= b_}.get(cn[1])
                 if r is not None and r != t:
                     return False
             continue
